@@ -847,9 +847,10 @@ func (ls *LanceroSource) distributeData(buffersMsg BuffersChanType) *dataBlock {
 	// external trigger search must occur before Mix, since mix alters FB in place
 	externalTriggerRowcounts := make([]int64, 0)
 	nrows := ls.devices[0].nrows
+	ncols := ls.devices[0].ncols
 	for frame := 0; frame < framesUsed; frame++ { // frame within this block, need to add ls.nextFrameNum for consistent timing across blocks
 		for row := 0; row < nrows; row++ { // search the first column for frame bit level triggers
-			channelIndex := row*2 + 1
+			channelIndex := row*ncols*2 + 1 // datacopies is in readout order (r0c0, r0c1, ...): feedback of column 0
 			v := datacopies[channelIndex][frame]
 			externalTriggerState := (v & 0x02) == 0x02 // external trigger bit is 2nd least significant bit in feedback (odd channelIndex)
 			if externalTriggerState && !ls.externalTriggerLastState {
